@@ -192,6 +192,18 @@ var c06Invalid = []struct {
 		d["apk"] = map[string]any{"signature": map[string]any{"key_file": keyPath(env, "rsa_unprotected.priv")}}
 		d["maintainer"] = "not an address"
 	}},
+	{"apk-sign-no-key-name-no-maintainer", []string{"apk"}, func(env *engine.Env, d fixture.Doc, f string) {
+		d["apk"] = map[string]any{"signature": map[string]any{"key_file": keyPath(env, "rsa_unprotected.priv")}}
+		delete(d, "maintainer")
+	}},
+	{"apk-sign-no-key-name-blank-maintainer", []string{"apk"}, func(env *engine.Env, d fixture.Doc, f string) {
+		d["apk"] = map[string]any{"signature": map[string]any{"key_file": keyPath(env, "rsa_unprotected.priv")}}
+		d["maintainer"] = "   "
+	}},
+	{"apk-sign-no-key-name-maintainer-without-address", []string{"apk"}, func(env *engine.Env, d fixture.Doc, f string) {
+		d["apk"] = map[string]any{"signature": map[string]any{"key_file": keyPath(env, "rsa_unprotected.priv")}}
+		d["maintainer"] = "Jane Roe"
+	}},
 	{"glob-no-match", Formats, func(env *engine.Env, d fixture.Doc, f string) {
 		d["contents"] = []any{map[string]any{"src": tree(env).P("etc/*.nomatch"), "dst": "/x"}}
 	}},
